@@ -124,7 +124,7 @@ class C03(CtxCheck):
                     if n < 2:
                         for td in (False, True):
                             ops.append(("op", m.idx, ("add", k, td, f"v:c{m.idx}:{k}:{n}", "m")))
-                for k, fk in (("Ad", "sync"), ("ABd", "sync"), ("BAd", "async"), ("Bd", "sync")):
+                for k, fk in (("Ad", "sync"), ("ABd", "sync"), ("BAd", "async"), ("Bd", "annot")):
                     n = nth(u, m.idx, "addf", k)
                     if n < 2:
                         ops.append(("op", m.idx, ("addf", k, fk, f"f:c{m.idx}:{k}:{n}", "m")))
